@@ -7,7 +7,8 @@ real constructors, the real ControlMessageIterator over crafted / kernel-filled 
                             kernel; write_all ‖ read-loop over a FIFO byte queue under an adversarial kernel/scheduler;
   2. Model/SockAddr.lean  — SocketAddressInet::new / ipv4_addr, SocketAddressUnix::try_from_unix;
   3. Model/Cmsg.lean      — cmsg_* macros, create_send, ControlMessageIterator (repaired macros, commit 1998249, and
-                            the macros as they were, with the two unrelated stack addresses as inputs).
+                            the macros as they were, with the two unrelated stack addresses as inputs) on EVERY byte
+                            content of the control buffer, against the kernel's CMSG_OK walk as specification.
 What no theorem can carry — that the Linux kernel behaves like the FIFO queue / `kfill` models, real readiness and
 real time — is observed by the check on real Unix / TCP sockets and reported separately.
 -/
